@@ -213,6 +213,9 @@ def contains(ip, container, item):
 
 def getitem(ip, obj, idx):
     ctx = ip.ctx
+    for k, fn in ip.reg.sym_getitem.items():
+        if isinstance(obj, k):
+            return fn(ip, obj, idx)
     if isinstance(obj, SHexNum):
         if isinstance(idx, slice) and idx.start == 2 and idx.stop is None and idx.step is None and obj.prefix:
             return SHexNum(obj.t, False)
@@ -899,6 +902,9 @@ def call_builtin_type(ip, cls, args, kwargs):
         if not args:
             return 0
         x = args[0]
+        for k, fn in ip.reg.sym_int.items():
+            if isinstance(x, k):
+                return fn(ip, x)
         if isinstance(x, (SInt,)):
             return x
         if isinstance(x, SDecStr):
